@@ -8,8 +8,8 @@ from gen import i1_line, e_array
 from vlib import poly_from_points, poly_eval, Result
 
 ID = "C02"
-LEAN_MODULES = ["NdInterp.Props.C02", "NdInterp.Props.C03", "NdInterp.Props.RatTie", "NdInterp.Props.FormulaTie.SplSys", "NdInterp.Props.FormulaTie.SplEval", "NdInterp.Props.FormulaTie.PerSys", "NdInterp.Props.FormulaTie.TabSpec"]
-THEOREM_FILES = [("NdInterp/Props/C02.lean", "C02_"), ("NdInterp/Props/FormulaTie/SplSys.lean", "FT_spl_"), ("NdInterp/Props/FormulaTie/SplEval.lean", "FT_spl_"), ("NdInterp/Props/FormulaTie/PerSys.lean", "FT_per_three"), ("NdInterp/Props/FormulaTie/PerSys.lean", "FT_per_rows"), ("NdInterp/Props/FormulaTie/PerSys.lean", "FT_per_combine"), ("NdInterp/Props/FormulaTie/TabSpec.lean", "FT_tab_")]
+LEAN_MODULES = ["NdInterp.Props.C02", "NdInterp.Props.C03", "NdInterp.Props.RatTie", "NdInterp.Props.FormulaTie.SplSys", "NdInterp.Props.FormulaTie.SplEval", "NdInterp.Props.FormulaTie.PerSys", "NdInterp.Props.FormulaTie.TabSpec", "NdInterp.Props.FormulaTie.Ctl"]
+THEOREM_FILES = [("NdInterp/Props/C02.lean", "C02_"), ("NdInterp/Props/FormulaTie/SplSys.lean", "FT_spl_"), ("NdInterp/Props/FormulaTie/SplEval.lean", "FT_spl_"), ("NdInterp/Props/FormulaTie/PerSys.lean", "FT_per_three"), ("NdInterp/Props/FormulaTie/PerSys.lean", "FT_per_rows"), ("NdInterp/Props/FormulaTie/PerSys.lean", "FT_per_combine"), ("NdInterp/Props/FormulaTie/TabSpec.lean", "FT_tab_"), ("NdInterp/Props/FormulaTie/Ctl.lean", "FT_ctl_")]
 RULE = ("CubicSpline at Q, exact: n=3..12 (thorough ..40), axis kinds incl. mesh ratios up to 2^6, dyadic and rational data, every "
         "boundary selection (NotAKnot, Natural, Clamped, Periodic, Individual arrays with any Mixed pair incl. FirstDeriv/SecondDeriv "
         "values, different per lane), 0..2 trailing axes, static/dynamic dims, layouts. Queries: every knot and 5 samples per interval. "
